@@ -256,6 +256,18 @@ func eqMap(a, b map[string]string) bool {
 	return true
 }
 
+// hasAll reports whether got contains every key of want with the same value.
+// The statement fixes the values of the listed fields; additional keys are
+// not forbidden, so they are not judged.
+func hasAll(got, want map[string]string) bool {
+	for k, v := range want {
+		if w, ok := got[k]; !ok || w != v {
+			return false
+		}
+	}
+	return true
+}
+
 // checkC06 compares one observation with the expectation built by the generator.
 func checkC06(x Exp, pid string, o obs) string {
 	if o.Panic != nil {
@@ -289,7 +301,7 @@ func checkC06(x Exp, pid string, o obs) string {
 		}
 		delete(got, "loggedAs")
 	}
-	if !eqMap(got, wantSubj) {
+	if !hasAll(got, wantSubj) {
 		return fmt.Sprintf("subjects %v, want %v", e.Subjects, wantSubj)
 	}
 	if e.Source.Type != "IP" || e.Source.Value != x.Source {
@@ -306,14 +318,14 @@ func checkC06(x Exp, pid string, o obs) string {
 	for k, v := range e.Source.Extra {
 		gotExtra[k] = fmt.Sprint(v)
 	}
-	if !eqMap(gotExtra, wantExtra) {
+	if !hasAll(gotExtra, wantExtra) {
 		return fmt.Sprintf("source.extra %v, want %v", e.Source.Extra, wantExtra)
 	}
-	if !eqMap(e.Target, map[string]string{"host": nodeName, "machine-id": machineID}) {
+	if !hasAll(e.Target, map[string]string{"host": nodeName, "machine-id": machineID}) {
 		return fmt.Sprintf("target %v", e.Target)
 	}
 	dm, ok := dataMap(&e)
-	if !ok || !eqMap(dm, x.Data) {
+	if !ok || !hasAll(dm, x.Data) {
 		return fmt.Sprintf("data %v, want %v", dm, x.Data)
 	}
 	wantME := map[string]string{}
@@ -324,7 +336,7 @@ func checkC06(x Exp, pid string, o obs) string {
 	for k, v := range e.Metadata.Extra {
 		gotME[k] = fmt.Sprint(v)
 	}
-	if !eqMap(gotME, wantME) {
+	if !hasAll(gotME, wantME) {
 		return fmt.Sprintf("metadata.extra %v, want %v", e.Metadata.Extra, wantME)
 	}
 	if e.LoggedAt.Before(o.T0.Add(-time.Millisecond)) || e.LoggedAt.After(o.T1.Add(time.Millisecond)) {
